@@ -369,3 +369,48 @@ def xor_specs(X, Y, reps):
 
     return {"xor.quantum_value": (XG, "XORGame.quantum_value", params, [], spec,
             "XORGame.quantum_value (%d x %d questions, reps = %d): (1/2 + opt/4)^reps with opt = min sum(u) + sum(v) s.t. [[Diag(u), -D], [-D^T, Diag(v)]] >= 0, D = pi * (-1)^f" % (X, Y, reps))}
+
+
+# ---------------------------------------------------------------------------------------------
+# symmetric_extension_hierarchy (cvxpy): local dimensions, level and number of states enumerated; density-matrix input, dim given as a list
+# ---------------------------------------------------------------------------------------------
+SEH = "toqito/state_opt/symmetric_extension_hierarchy.py"
+
+
+def seh_specs(n, dx, dy, level, probs_given=True):
+    params = [("states", "arrlist%d" % n), ("probs", "reallist%d" % n if probs_given else None), ("level", level), ("dim", [dx, dy])]
+    dim_list = [dx] + [dy] * level
+    sys_list = list(range(2, 2 + level - 1))
+
+    def spec(e):
+        st = e["states"]
+        pr = e["probs"] if e["probs"] is not None else [1 / n] * n
+        dxy = uf("shape[0]", R, st[0])
+        dxyy = 1
+        for x in dim_list:
+            dxyy *= x
+        M = [cvar(2 * k, "hermitian=True", dxy, dxy) for k in range(n)]
+        X = [cvar(2 * k + 1, "hermitian=True", dxyy, dxyy) for k in range(n)]
+        sym = tq("symmetric_projection", Arr, consts=["dim=%d" % dy, "p_val=%d" % level])
+        proj = uf("np.kron", Arr, ident("np.identity", dx), sym)
+        cons, text = [], []
+        for k in range(n):
+            cons.append(Cons("eq", tq("partial_trace", Arr, consts=["dim=%r" % (dim_list,), "sys=%r" % (sys_list,)], input_mat=X[k]), M[k]))
+            text.append("Tr_{extension copies} X_%d == M_%d" % (k, k))
+            cons.append(psd(X[k]))
+            text.append("X_%d >= 0" % k)
+            cons.append(psd(M[k]))
+            text.append("M_%d >= 0" % k)
+            cons.append(Cons("eq", mat(mat(proj, X[k]), proj), X[k]))
+            text.append("(I (x) P_sym) X_%d (I (x) P_sym) == X_%d" % (k, k))
+            for s_ in [0] + [j + 2 for j in range(level - 1)]:
+                cons.append(psd(tq("partial_transpose", Arr, consts=["dim=%r" % (dim_list,), "sys=%r" % ([s_],)], rho=X[k])))
+                text.append("PT_%d(X_%d) >= 0" % (s_, k))
+        cons.append(Cons("eq", msum(M), uf("np.identity", Arr, dxy)))
+        text.append("sum_k M_k == I")
+        return dict(direction="max", objective=sum(lift(pr[k]) * ip(st[k], M[k]) for k in range(n)), objective_text="sum_k p_k <rho_k, M_k>",
+                    scalar_result=True, solver_param=False, constraints=cons, ordered=False, constraint_text=text)
+
+    req = [lambda e: uf("shape[1]", R, e["states"][0]) != 1, lambda e: uf("shape[0]", R, e["states"][0]) == dx * dy]
+    return {"seh": (SEH, "symmetric_extension_hierarchy", params, req, spec,
+            "symmetric_extension_hierarchy (%d density matrices on C^%d (x) C^%d, level %d): max sum_k p_k <rho_k, M_k> s.t. M_k = Tr_ext X_k, X_k >= 0, M_k >= 0, X_k symmetric on the copies of the second party, PPT across the first party and each extension copy, sum_k M_k = I" % (n, dx, dy, level))}
